@@ -145,6 +145,34 @@ REGISTRIES = {
 }
 
 
+def _some_element_has_the_name(ev, coll, name) -> bool:
+    """the event happens exactly when some element of `coll` has the name `name`, in any of the spellings
+    `name in [e.name for e in coll]`, `any(e.name == name for e in coll)`, `for e in coll: if e.name == name: <event>`"""
+    def same_name(t, L):
+        t = norm(t)
+        return is_app(t, "==") and len(t) == 4 and {t[2], t[3]} == {A(elem(L), "name"), name}
+
+    def one_each(lst):
+        if isinstance(lst, tuple) and lst and lst[0] in ("list", "tuple") and len(lst[1]) == 1 and lst[1][0] and lst[1][0][0] == "each":
+            e = lst[1][0]
+            if len(e[1]) == 1 and not e[2] and norm(e[1][0][3]) == norm(coll):
+                return e
+        return None
+    if ev.loops:
+        L = ev.loops[-1]
+        return len(ev.loops) == 1 and norm(L[3]) == norm(coll) and len(ev.guards) == 1 and same_name(ev.guards[0], L)
+    if len(ev.guards) != 1:
+        return False
+    g = ev.guards[0]
+    if is_app(g, "in") and len(g) == 4 and g[2] == name:
+        e = one_each(g[3])
+        return e is not None and e[3] == A(elem(e[1][0]), "name")
+    if isinstance(g, tuple) and g and g[0] == "call" and g[1] == "any" and len(g[2]) == 1:
+        e = one_each(g[2][0])
+        return e is not None and same_name(e[3], e[1][0])
+    return False
+
+
 def r_dup_name(ctx, only=None):
     """`only`: the registry methods to look at (the per-kind properties share the rule for the registry of their own kind: an
     element that is silently replaced under its name is never asserted)"""
@@ -161,8 +189,15 @@ def r_dup_name(ctx, only=None):
             key = A(S(pname), "name")
             rs = [ev for ev in r.events_of("raise") if any(norm(g) == norm(app("in", key, A(SELF, reg))) for g in ev.guards)]
             st = [ev for ev in r.events_of("store") if ev.data["container"] == A(SELF, reg)]
-            ok = len(rs) == 1 and len(st) == 1 and st[0].data["key"] == key and st[0].data["value"] == S(pname) \
-                and rs[0].site.lineno < st[0].site.lineno
+            ok = len(rs) == 1 and len(st) == 1 and st[0].data["key"] == key and st[0].data["value"] == S(pname)
+            if ok:
+                # the store happens on new names only: it is under `not (name in registry)`, or the raise comes first in
+                # execution order and ends every path on which the name is known
+                taken = norm(app("in", key, A(SELF, reg)))
+                guarded = any(norm(g) == norm(app("not", taken)) for g in st[0].guards)
+                evs = list(r.events)
+                first = evs.index(rs[0]) < evs.index(st[0]) and [norm(g) for g in rs[0].guards] == [taken]
+                ok = guarded or first
             if ok:
                 ctx.ok("R-DUP-NAME", f"{where}: duplicate name rejected before insertion under the same key")
             else:
@@ -174,9 +209,12 @@ def r_dup_name(ctx, only=None):
     runs = runs_of(ctx, Entry("method", cls="SchedulingProblem", name="add_buffer"))
     fails_closed(ctx, "R-DUP-NAME", runs)
     for r in runs:
-        rs = [ev for ev in r.events_of("raise") if any("buffers" in show(g) and "name" in show(g) and is_app(norm(g), "in") for g in ev.guards)]
+        fn = proj.method("SchedulingProblem", "add_buffer")[1]
+        new_name = A(S(fn.args.args[1].arg), "name")
+        rs = [ev for ev in r.events_of("raise") if _some_element_has_the_name(ev, A(SELF, "buffers"), new_name)]
         ap = [ev for ev in r.events_of("mcall") if ev.data["name"] == "append" and ev.data["recv"] == A(SELF, "buffers")]
-        if len(rs) == 1 and len(ap) == 1 and rs[0].site.lineno < ap[0].site.lineno:
+        evs = list(r.events)
+        if len(rs) == 1 and len(ap) == 1 and evs.index(rs[0]) < evs.index(ap[0]) and not ap[0].loops:
             ctx.ok("R-DUP-NAME", "SchedulingProblem.add_buffer: duplicate buffer name rejected before insertion")
         else:
             ctx.violation("R-DUP-NAME", "SchedulingProblem.add_buffer", "duplicate buffer name rejected",
